@@ -137,8 +137,32 @@ func valueTraits(v ref.V, top bool, t map[string]bool) {
 	}
 }
 
+// payloadBytes: the bytes of strings and byte strings in a value (what the DAG-CBOR decoder
+// charges against its allocation budget).
+func payloadBytes(v ref.V) int {
+	n := 0
+	switch v.K {
+	case ref.KString:
+		n = len(v.S)
+	case ref.KBytes:
+		n = len(v.Y)
+	case ref.KList:
+		for _, e := range v.L {
+			n += payloadBytes(e)
+		}
+	case ref.KMap:
+		for _, e := range v.M {
+			n += len(e.K) + payloadBytes(e.V)
+		}
+	}
+	return n
+}
+
 func specTraits(s *gen.TokenSpec) map[string]bool {
 	t := map[string]bool{}
+	if payloadBytes(s.Meta)+payloadBytes(s.Args) > 10<<20 {
+		t["over-10MiB"] = true
+	}
 	valueTraits(s.Meta, true, t)
 	valueTraits(s.Args, true, t)
 	for _, st := range s.Pol {
@@ -332,6 +356,19 @@ func runC07(w *mon.W) {
 		}
 		s := gen.RandomSpec(r, typ, o)
 		c07One(w, s, label)
+	}
+	// size classes: one big value (the dependency's DAG-CBOR decoder has a fixed allocation
+	// budget of 10 MiB per document: 9 MiB must round-trip, 11 MiB cannot be unsealed)
+	for i, sz := range []int{64 << 10, 1 << 20, 9 << 20, 11 << 20} {
+		if !w.Mine(i) {
+			continue
+		}
+		for _, typ := range []string{"dlg", "inv"} {
+			s := gen.RandomSpec(r, typ, gen.SpecOpts{Issuer: gen.Ed(i), Minimal: true})
+			s.Meta = ref.Map(ref.E("big", ref.Str(strings.Repeat("x", sz))))
+			w.Cover(fmt.Sprintf("size/%dKiB", sz>>10))
+			c07One(w, s, "random")
+		}
 	}
 	// targeted delicate classes (each shard, small)
 	for i := 0; i < w.Pick(6, 40); i++ {
